@@ -94,6 +94,10 @@ type caseT struct {
 	// e2e only: the server side of the pair
 	SMechs []mechSpec `json:"smechs,omitempty"`
 	SSteps []stepRes  `json:"ssteps,omitempty"`
+	// hist only (hist.go): several connections on ONE feature value
+	Side     string      `json:"side,omitempty"` // client | server
+	Sessions []sessSpec  `json:"sessions,omitempty"`
+	Sched    []schedStep `json:"sched,omitempty"`
 }
 
 // ---------------------------------------------------------------- observation
@@ -161,6 +165,10 @@ type run struct {
 	mask    xmpp.SessionState
 	negErr  error
 	peerNeg *sasl.Negotiator
+
+	// histories (hist.go): called before every chunk is handed over; the
+	// scheduler decides when the connection goes on
+	park func()
 }
 
 func (h *run) restartSeen() bool {
@@ -173,6 +181,9 @@ func (h *run) restartSeen() bool {
 
 func (h *run) Read(p []byte) (int, error) {
 	if len(h.cur) == 0 {
+		if h.park != nil {
+			h.park()
+		}
 		switch {
 		case h.preI < len(h.pre):
 			h.cur = h.pre[h.preI]
@@ -431,15 +442,22 @@ func mechErrClass(err error) string {
 }
 
 func (h *run) mech(spec mechSpec) sasl.Mechanism {
+	return mechOf(func() *run { return h }, spec)
+}
+
+// mechOf builds the mechanism value; who is the connection whose log and
+// script a Step belongs to at the time of the call. (A feature value shared by
+// several connections shares its mechanism values too.)
+func mechOf(who func() *run, spec mechSpec) sasl.Mechanism {
 	if spec.Kind == "script" {
 		name := spec.Name
 		return sasl.Mechanism{
 			Name: name,
 			Start: func(n *sasl.Negotiator) (bool, []byte, interface{}, error) {
-				return h.scripted(name, nil)
+				return who().scripted(name, nil)
 			},
 			Next: func(n *sasl.Negotiator, ch []byte, _ interface{}) (bool, []byte, interface{}, error) {
-				return h.scripted(name, ch)
+				return who().scripted(name, ch)
 			},
 		}
 	}
@@ -447,6 +465,7 @@ func (h *run) mech(spec mechSpec) sasl.Mechanism {
 	return sasl.Mechanism{
 		Name: real.Name,
 		Start: func(n *sasl.Negotiator) (bool, []byte, interface{}, error) {
+			h := who()
 			more, resp, cache, err := real.Start(n)
 			idx := h.k
 			r := stepRes{More: more, Resp: hx.Hex(resp), Err: mechErrClass(err)}
@@ -455,6 +474,7 @@ func (h *run) mech(spec mechSpec) sasl.Mechanism {
 			return more, resp, cache, err
 		},
 		Next: func(n *sasl.Negotiator, ch []byte, data interface{}) (bool, []byte, interface{}, error) {
+			h := who()
 			more, resp, cache, err := real.Next(n, ch, data)
 			idx := h.k
 			r := stepRes{More: more, Resp: hx.Hex(resp), Err: mechErrClass(err)}
@@ -577,49 +597,38 @@ func localJID(user string) jid.JID {
 	return jid.MustParse(user + "@example.net")
 }
 
-func runCase(c *caseT) *obsT {
-	h := &run{c: c}
-	o := &obsT{}
-	var mechs []sasl.Mechanism
-	for _, m := range c.Mechs {
-		mechs = append(mechs, h.mech(m))
-	}
-	var sess *xmpp.Session
-	var err error
-	body := func() {
-		if c.Role == "client" {
-			var adv strings.Builder
-			adv.WriteString("<stream:features><mechanisms xmlns='" + nsSASL + "'>")
-			for _, a := range c.Adv {
-				if a.NS {
-					adv.WriteString("<mechanism>" + xmlEsc(a.Name) + "</mechanism>")
-				} else {
-					adv.WriteString("<mechanism xmlns='urn:other'>" + xmlEsc(a.Name) + "</mechanism>")
-				}
+// serve runs one connection on the real code with the given feature value.
+func (h *run) serve(feat xmpp.StreamFeature) (*xmpp.Session, error) {
+	c := h.c
+	if c.Role == "client" {
+		var adv strings.Builder
+		adv.WriteString("<stream:features><mechanisms xmlns='" + nsSASL + "'>")
+		for _, a := range c.Adv {
+			if a.NS {
+				adv.WriteString("<mechanism>" + xmlEsc(a.Name) + "</mechanism>")
+			} else {
+				adv.WriteString("<mechanism xmlns='urn:other'>" + xmlEsc(a.Name) + "</mechanism>")
 			}
-			adv.WriteString("</mechanisms></stream:features>")
-			h.pre = [][]byte{header(" id='verif1' from='example.net'"), []byte(adv.String())}
-			h.post = [][]byte{header(" id='verif2' from='example.net'"), []byte("<stream:features/>")}
-			feat := h.wrap(xmpp.SASL(c.Ident, c.Pass, mechs...))
-			neg := xmpp.NewNegotiator(func(*xmpp.Session, *xmpp.StreamConfig) xmpp.StreamConfig {
-				return xmpp.StreamConfig{Features: []xmpp.StreamFeature{feat}}
-			})
-			sess, err = xmpp.NewSession(context.Background(), jid.MustParse("example.net"), localJID(c.User), h, xmpp.Secure, neg)
-		} else {
-			h.pre = [][]byte{header(" to='example.net'")}
-			h.post = [][]byte{header(" to='example.net'"), []byte("<done xmlns='" + nsDone + "'/>")}
-			feat := h.wrap(xmpp.SASLServer(h.perm, mechs...))
-			neg := xmpp.NewNegotiator(func(*xmpp.Session, *xmpp.StreamConfig) xmpp.StreamConfig {
-				return xmpp.StreamConfig{Features: []xmpp.StreamFeature{feat, doneFeature()}}
-			})
-			sess, err = xmpp.ReceiveSession(context.Background(), h, xmpp.Secure, neg)
 		}
+		adv.WriteString("</mechanisms></stream:features>")
+		h.pre = [][]byte{header(" id='verif1' from='example.net'"), []byte(adv.String())}
+		h.post = [][]byte{header(" id='verif2' from='example.net'"), []byte("<stream:features/>")}
+		neg := xmpp.NewNegotiator(func(*xmpp.Session, *xmpp.StreamConfig) xmpp.StreamConfig {
+			return xmpp.StreamConfig{Features: []xmpp.StreamFeature{feat}}
+		})
+		return xmpp.NewSession(context.Background(), jid.MustParse("example.net"), localJID(c.User), h, xmpp.Secure, neg)
 	}
-	finished := hx.WithTimeout(10*time.Second, func() { o.Panic = hx.Catch(body) })
-	if !finished {
-		o.Hung = true
-		return o
-	}
+	h.pre = [][]byte{header(" to='example.net'")}
+	h.post = [][]byte{header(" to='example.net'"), []byte("<done xmlns='" + nsDone + "'/>")}
+	neg := xmpp.NewNegotiator(func(*xmpp.Session, *xmpp.StreamConfig) xmpp.StreamConfig {
+		return xmpp.StreamConfig{Features: []xmpp.StreamFeature{feat, doneFeature()}}
+	})
+	return xmpp.ReceiveSession(context.Background(), h, xmpp.Secure, neg)
+}
+
+// observe projects what the connection did.
+func (h *run) observe(o *obsT, sess *xmpp.Session, err error) {
+	c := h.c
 	o.Called, o.Mask = h.called, uint8(h.mask)
 	o.NegErr = h.classify(h.negErr)
 	if h.negErr != nil {
@@ -651,6 +660,30 @@ func runCase(c *caseT) *obsT {
 	o.Out, o.Listed = parseOut(c.Role, h.out.Bytes())
 	// what the model needs of the oracle table (real mechanisms: as logged)
 	c.Steps = mergeSteps(c.Steps, h.table)
+}
+
+func runCase(c *caseT) *obsT {
+	h := &run{c: c}
+	o := &obsT{}
+	var mechs []sasl.Mechanism
+	for _, m := range c.Mechs {
+		mechs = append(mechs, h.mech(m))
+	}
+	var sess *xmpp.Session
+	var err error
+	body := func() {
+		if c.Role == "client" {
+			sess, err = h.serve(h.wrap(xmpp.SASL(c.Ident, c.Pass, mechs...)))
+		} else {
+			sess, err = h.serve(h.wrap(xmpp.SASLServer(h.perm, mechs...)))
+		}
+	}
+	finished := hx.WithTimeout(10*time.Second, func() { o.Panic = hx.Catch(body) })
+	if !finished {
+		o.Hung = true
+		return o
+	}
+	h.observe(o, sess, err)
 	return o
 }
 
@@ -746,7 +779,20 @@ func goDecode(raw string) ([]byte, bool) {
 func strictB64(raw string) ([]byte, bool) {
 	raw = strings.NewReplacer("\n", "", "\r", "").Replace(raw)
 	b, err := base64.StdEncoding.Strict().DecodeString(raw)
-	return b, err == nil
+	if err != nil { // DecodeString returns what it had decoded so far together with the error
+		return nil, false
+	}
+	return b, true
+}
+
+// payloadOK: RFC 6120 6.4.2 — the payload of <auth/> / <response/> is base64, a
+// single "=" for zero-length data, or absent.
+func payloadOK(raw string) bool {
+	if raw == "" || raw == "=" {
+		return true
+	}
+	_, ok := strictB64(raw)
+	return ok
 }
 
 func hasMech(specs []mechSpec, name string) (mechSpec, bool) {
@@ -902,6 +948,14 @@ func oracle(c *caseT, o *obsT) []failure {
 			add("authn-after-mechanism-error", "Authn is set although a Step of the selected mechanism returned an error")
 		}
 	}
+	// what was fed to the mechanism is what the peer sent: every payload since that <auth/> is
+	// well-formed (padded base64 and nothing else, or "=" / nothing for no data)
+	for _, it := range delivered[lastAuth:] {
+		if !payloadOK(it.Raw) {
+			add("authn-after-undecodable-payload", fmt.Sprintf("Authn is set although the peer sent %s, which is not base64", describe(it)))
+			break
+		}
+	}
 	spec, _ := hasMech(c.Mechs, c.Script[lastAuth].Mech)
 	if spec.Kind == "plain" {
 		// the permission callback accepted exactly the credentials of that <auth/>
@@ -998,7 +1052,14 @@ func coqPay(it item) string {
 	if ok {
 		d = "(Some " + hx.CoqBytes(dec) + ")"
 	}
-	return fmt.Sprintf("(Some (mkPay %s %s))", hx.CoqNat(len(it.Raw)), d)
+	form := "PText"
+	switch it.Raw {
+	case "":
+		form = "PNone"
+	case "=":
+		form = "PEq"
+	}
+	return fmt.Sprintf("(Some (mkPay %s %s))", form, d)
 }
 
 func coqCond(it item) string {
@@ -1130,6 +1191,7 @@ type runner struct {
 	cc  hx.CaseFile
 	sc  hx.CaseFile
 	bc  hx.CaseFile
+	hc  hx.CaseFile
 }
 
 type record struct {
@@ -1140,6 +1202,10 @@ type record struct {
 func (x *runner) one(c *caseT) {
 	if c.Role == "e2e" {
 		x.e2e(c)
+		return
+	}
+	if c.Role == "hist" {
+		x.hist(c)
 		return
 	}
 	o := runCase(c)
@@ -1182,6 +1248,7 @@ func main() {
 	x.cc = hx.CaseFile{Name: "client", Imports: imports, Ok: "ccase_ok", Type: "ccase"}
 	x.sc = hx.CaseFile{Name: "server", Imports: imports, Ok: "scase_ok", Type: "scase"}
 	x.bc = hx.CaseFile{Name: "b64", Imports: imports, Ok: "bcase_ok", Type: "bcase"}
+	x.hc = hx.CaseFile{Name: "hist", Imports: "From XV Require Import lib.Bytes C03.Model C03.Hist.\n", Ok: "hcase_ok", Type: "hcase"}
 	r := hx.NewRand(o.Seed)
 
 	if o.Replay != "" {
@@ -1211,7 +1278,8 @@ func main() {
 		res.CaseFiles = append(res.CaseFiles, x.cc.Write(o.Out, per)...)
 		res.CaseFiles = append(res.CaseFiles, x.sc.Write(o.Out, per)...)
 		res.CaseFiles = append(res.CaseFiles, x.bc.Write(o.Out, per)...)
-		res.Extra["model_cases"] = x.cc.Len() + x.sc.Len() + x.bc.Len()
+		res.CaseFiles = append(res.CaseFiles, x.hc.Write(o.Out, per)...)
+		res.Extra["model_cases"] = x.cc.Len() + x.sc.Len() + x.bc.Len() + x.hc.Len()
 	}
 	res.Write(o.Out)
 }
